@@ -86,6 +86,7 @@ Init0 ==
      \* SessionState
      restart   |-> TRUE,
      lastRec   |-> NoTime,      \* last_recorded_time
+     app       |-> [time |-> FALSE, local |-> FALSE, trouble |-> FALSE, cfg |-> FALSE],   \* application indications
      enabled   |-> {},          \* enabled_unsolicited_classes
      last      |-> NoLast,      \* last_valid_request
      select    |-> NoSel,
@@ -295,7 +296,9 @@ ResponseIin(s) ==
     [NoIin EXCEPT !.rst = s.restart,
                   !.c1 = Unwritten(s, 1), !.c2 = Unwritten(s, 2), !.c3 = Unwritten(s, 3),
                   !.ovf = s.ovf,
-                  !.bc = s.lastBc # "none"]
+                  !.bc = s.lastBc # "none",
+                  \* OutstationApplication::get_application_iin, asked for every response
+                  !.time = s.app.time, !.local = s.app.local, !.trouble = s.app.trouble, !.cfg = s.app.cfg]
 AfterIin(s) == IF s.lastBc \in {"opt", "nr"} THEN [s EXCEPT !.lastBc = "none"] ELSE s
 
 OrIin(a, b) == [k \in DOMAIN a |-> a[k] \/ b[k]]
@@ -758,6 +761,9 @@ Advance(s, target) ==
 -----------------------------------------------------------------------------
 (* stimuli.  A (resolved) input is a record in the scenario alphabet:          *)
 (*   [k |-> "conn"] [k |-> "cut"] [k |-> "adv", dt] [k |-> "upd", p]          *)
+(*   [k |-> "app", bit, on]   the application raises / lowers NEED_TIME,      *)
+(*        LOCAL_CONTROL, DEVICE_TROUBLE or CONFIG_CORRUPT (time | local |     *)
+(*        trouble | cfg)                                                      *)
 (*   [k |-> "read", seq, hs, rep]   hs: header tokens [n |-> c0|c1|c2|c3, lim]    *)
 (*   [k |-> "req", f, seq, cl, rep (, ob, bad, src, dst)]                      *)
 (*        f: delay | enable | disable | write_rst | write2 | select | operate | dop |  *)
@@ -792,6 +798,7 @@ Inject(s, in) ==
     CASE in.k = "conn" -> IF s.pc = "Down" THEN [s EXCEPT !.pc = "Top", !.changed = FALSE] ELSE s
       [] in.k = "cut"  -> SessionReset(s)
       [] in.k = "adv"  -> s
+      [] in.k = "app"  -> [s EXCEPT !.app[in.bit] = in.on]
       [] in.k = "upd"  ->
             LET n   == s.nupd + 1
                 val == UpdVal(in.p, n)
